@@ -1,28 +1,46 @@
 /-
 Line-protocol driver: one operation per stdin line, one canonical line out.
-Core Lean only (links as a lean_exe).
+Core Lean only (links as a lean_exe). Each model contributes `Driver.Ops.<M>.handle`.
+An operation nobody recognises answers `bad-op` (never a default value).
 -/
-import BHS.Gen.Arith
-import BHS.Gen.Consts
-import BHS.Spec.Arith
+import Driver.Ops.Arith
+import Driver.Ops.Chain
+import Driver.Ops.Wire
+import Driver.Ops.Peers
+import Driver.Ops.Hooks
+import Driver.Ops.Auth
+import Driver.Ops.Http
+import Driver.Ops.Config
+import Driver.Ops.Sync
+import Driver.Ops.ImpExp
 
-open BHS
+open Driver.Ops
 
 structure DState where
-  dummy : Unit := ()
-
-def arithOp : List String → Option String
-  | ["bits", n] => (fun k => s!"{Gen.compactToBig k} {Gen.calcWork k}") <$> n.toNat?
-  | ["log2", n] => (fun k => s!"{Gen.fastLog2Floor k}") <$> n.toNat?
-  | ["specbits", n] => (fun k => s!"{Spec.targetSpec k} {Spec.workSpec (Spec.targetSpec k)}") <$> n.toNat?
-  | ["speclog2", n] => (fun k => s!"{Nat.log2 k}") <$> n.toNat?
-  | _ => none
+  arith : Arith.S := {}
+  chain : Chain.S := {}
+  wire : Wire.S := {}
+  peers : Peers.S := {}
+  hooks : Hooks.S := {}
+  auth : Auth.S := {}
+  http : Http.S := {}
+  config : Config.S := {}
+  sync : Sync.S := {}
+  impexp : ImpExp.S := {}
 
 def step (st : DState) (line : String) : DState × String :=
   let ws := (line.trimAscii.toString.splitOn " ").filter (· ≠ "")
-  match arithOp ws with
-  | some out => (st, out)
-  | none => (st, "bad-op")
+  if let some (s, o) := Arith.handle st.arith ws then ({ st with arith := s }, o)
+  else if let some (s, o) := Chain.handle st.chain ws then ({ st with chain := s }, o)
+  else if let some (s, o) := Wire.handle st.wire ws then ({ st with wire := s }, o)
+  else if let some (s, o) := Peers.handle st.peers ws then ({ st with peers := s }, o)
+  else if let some (s, o) := Hooks.handle st.hooks ws then ({ st with hooks := s }, o)
+  else if let some (s, o) := Auth.handle st.auth ws then ({ st with auth := s }, o)
+  else if let some (s, o) := Http.handle st.http ws then ({ st with http := s }, o)
+  else if let some (s, o) := Config.handle st.config ws then ({ st with config := s }, o)
+  else if let some (s, o) := Sync.handle st.sync ws then ({ st with sync := s }, o)
+  else if let some (s, o) := ImpExp.handle st.impexp ws then ({ st with impexp := s }, o)
+  else (st, "bad-op")
 
 partial def loop (h : IO.FS.Stream) (out : IO.FS.Stream) (st : DState) : IO Unit := do
   let line ← h.getLine
